@@ -20,7 +20,7 @@ import (
 func runOne(t *testing.T, c *Case, work, sched *choice.Source, out *wproto.Out, tail *racelog.Tail, id int) {
 	out.Begin(id)
 	out.SetOnStuck(func() {
-		c.Work, c.Sched = work.Tape(), sched.Tape()
+		c.Work, c.Sched, c.Pol = work.Tape(), sched.Tape(), sched.AuxTape()
 		out.Finding(id, "livelock|never-returned", "livelock", "the run exceeded its scheduler step budget and, left to run freely, still had not returned three seconds later: an endless loop", c)
 		out.End(id, []string{"livelock|never-returned"})
 		out.Count("evaluations", 1)
@@ -78,6 +78,11 @@ func runOne(t *testing.T, c *Case, work, sched *choice.Source, out *wproto.Out, 
 	}
 	out.SampleKind(c.Kind, map[string]any{"case": id, "kind": c.Kind, "what": st.Desc, "sched_steps": st.Steps, "preemptions": st.Preempt, "tasks": st.Tasks}, 1, 12)
 	out.Remember(c)
+	simsched.FlushTotals(out.Count, func(name string, n int64) {
+		if n > out.Counters[name] {
+			out.Counters[name] = n
+		}
+	})
 	out.Tick(32)
 }
 
@@ -113,7 +118,7 @@ func TestWorker(t *testing.T) {
 				runOne(t, &c, choice.New(c.Seed, fmt.Sprint("c13-work-", c.Index)), choice.New(c.Seed, fmt.Sprint("c13-sched-", c.Index)), out, tail, i)
 				continue
 			}
-			runOne(t, &c, choice.Replay(c.Work), choice.Replay(c.Sched), out, tail, i)
+			runOne(t, &c, choice.Replay(c.Work), choice.ReplayAux(c.Sched, c.Pol), out, tail, i)
 		}
 		out.Finish("done", len(job.Cases))
 	case "dump":
